@@ -34,13 +34,21 @@ fn arg_val(args: &[String], name: &str) -> Option<String> {
     args.iter().position(|a| a == name).and_then(|i| args.get(i + 1).cloned())
 }
 
-struct Pending(PathBuf);
+/// The note is rewritten in place (one pwrite + one ftruncate, no open/close per note).
+struct Pending(PathBuf, fs::File);
 impl Pending {
+    fn new(p: PathBuf) -> Pending {
+        let f = fs::File::create(&p).expect("pending file");
+        Pending(p, f)
+    }
     fn set(&self, v: &Value) {
-        let _ = fs::write(&self.0, serde_json::to_vec(v).unwrap());
+        use std::os::unix::fs::FileExt;
+        let b = serde_json::to_vec(v).unwrap();
+        let _ = self.1.write_all_at(&b, 0);
+        let _ = self.1.set_len(b.len() as u64);
     }
     fn clear(&self) {
-        let _ = fs::write(&self.0, b"");
+        let _ = self.1.set_len(0);
     }
 }
 
@@ -130,9 +138,7 @@ fn run_parse(buf: &[u8], off: usize) -> Value {
 fn observe(buf: &[u8], off: usize, tag: &str, out: &mut TraceOut, pend: &Pending) {
     pend.set(&json!({"ev": "bytes", "tag": tag, "buf": bytes_json(buf), "off": off, "phase": "check"}));
     let c = run_check(buf, off);
-    pend.set(&json!({"ev": "bytes", "tag": tag, "buf": bytes_json(buf), "off": off, "phase": "parse", "check": c}));
     let p = run_parse(buf, off);
-    pend.clear();
     out.emit(&json!({"ev": "bytes", "tag": tag, "buf": bytes_json(buf), "off": off, "check": c, "parse": p}));
 }
 
@@ -185,7 +191,7 @@ fn bytes_mode(inputs: &[Vec<u8>], seed: u64, fuzz: usize, si: usize, sn: usize, 
             }
         }
     }
-    for k in [1usize, 2, 3, 127, 128, 129, 130, 200] {
+    for k in [1usize, 2, 3, 40] {
         for inner in [&b":1\r\n"[..], &b"$1\r\na\r\n"[..], &b":1\r"[..], &b""[..], &b"?"[..]] {
             extra.push(("nest".into(), nest(k, inner), 0));
         }
@@ -223,7 +229,8 @@ fn bytes_mode(inputs: &[Vec<u8>], seed: u64, fuzz: usize, si: usize, sn: usize, 
     }
     // nesting far beyond the limit: too long for the trace, recorded by its shape
     if si == 0 {
-        for (k, complete) in [(1000usize, true), (100_000, true), (200_000, false), (1_000_000, true)] {
+        for (k, complete) in [(127usize, true), (127, false), (128, true), (128, false), (129, true), (129, false),
+                              (130, true), (200, false), (1000, true), (100_000, true), (200_000, false), (1_000_000, true)] {
             let v = nest(k, if complete { b":1\r\n" } else { b"" });
             pend.set(&json!({"ev": "deepnest", "k": k, "complete": complete, "phase": "check"}));
             let c = run_check(&v, 0);
@@ -311,6 +318,18 @@ fn conn_mode(streams: &[Value], seed: u64, si: usize, sn: usize, out: &mut Trace
     let rt = tokio::runtime::Builder::new_current_thread().enable_all().build().unwrap();
     let mut rng = Rng::new(seed.wrapping_add(si as u64 * 131));
     let mut n = 0u64;
+    // stretches the bounded frame set cannot contain: payloads around and above the 8 KiB
+    // read/write buffers, followed by more frames in the same stream (pipelining)
+    let mut all: Vec<Value> = streams.to_vec();
+    for big in [8180usize, 8192, 8193, 16384, 16400, 20000] {
+        let payload: Vec<u64> = (0..big).map(|i| if i % 97 == 0 { 13 } else if i % 89 == 0 { 10 } else { 97 + (i % 26) as u64 }).collect();
+        let b = json!({"t": "bulk", "b": payload});
+        let small = json!({"t": "bulk", "b": [107]});
+        all.push(json!({"big": true, "frames": [b, {"t": "simple", "s": [79, 75]}, {"t": "int", "v": {"neg": true, "digits": [52, 50]}}, {"t": "null"}]}));
+        all.push(json!({"big": true, "frames": [{"t": "array", "items": [{"t": "bulk", "b": [83, 69, 84]}, small, b]},
+                                                  {"t": "array", "items": [{"t": "bulk", "b": [71, 69, 84]}, small]}]}));
+    }
+    let streams = &all;
     for (i, s) in streams.iter().enumerate() {
         if i % sn != si {
             continue;
@@ -355,32 +374,72 @@ fn conn_mode(streams: &[Value], seed: u64, si: usize, sn: usize, out: &mut Trace
         pend.set(&json!({"ev": "conn", "frames": s["frames"], "phase": "read"}));
         let mut runs = vec![];
         let len = bytes.len();
+        let orig: Vec<Value> = s["frames"].as_array().unwrap().clone();
+        let is_big = s.get("big").is_some();
         let mut push = |segs: Vec<Vec<u8>>, upto: usize, how: &str, runs: &mut Vec<Value>| {
-            let lens: Vec<usize> = segs.iter().map(|x| x.len()).collect();
-            let (got, end) = read_run(&rt, segs);
+            let lens: Vec<usize> = if segs.len() > 64 { vec![segs.len()] } else { segs.iter().map(|x| x.len()).collect() };
+            let (mut got, end) = read_run(&rt, segs);
+            if is_big {
+                // keep the trace small: a decoded frame that is identical to the frame written at
+                // the same position is recorded as a reference to it
+                for (i, g) in got.iter_mut().enumerate() {
+                    if orig.get(i) == Some(g) {
+                        *g = json!({"t": "same", "i": i + 1});
+                    }
+                }
+            }
             runs.push(json!({"how": how, "segs": lens, "upto": upto, "got": got, "end": end}));
         };
+        // frame boundaries inside the stream (each frame encoded alone by the real writer)
+        let mut bounds: Vec<usize> = vec![];
+        {
+            let mut at = 0usize;
+            for f in &frames {
+                let mut sink = SegStream { segs: VecDeque::new(), written: vec![] };
+                let _ = rt.block_on(async { Connection::new(&mut sink).write_frame(f).await });
+                at += sink.written.len();
+                bounds.push(at);
+            }
+        }
+        let near: Vec<usize> = {
+            let mut v: Vec<usize> = vec![];
+            for b in bounds.iter().chain([8192usize, 16384, 65536].iter()) {
+                for d in [-2i64, -1, 0, 1, 2, 5] {
+                    let x = *b as i64 + d;
+                    if x > 0 && (x as usize) < len {
+                        v.push(x as usize);
+                    }
+                }
+            }
+            v.sort();
+            v.dedup();
+            v
+        };
+        let small = len <= 40 && frames.len() == 1;
         push(vec![bytes.clone()], len, "all-at-once", &mut runs);
-        push(bytes.iter().map(|b| vec![*b]).collect(), len, "bytewise", &mut runs);
-        // every single cut (sampled when long)
-        let cuts: Vec<usize> = if len <= 40 { (1..len).collect() } else { (0..24).map(|_| 1 + rng.below(len as u64 - 1) as usize).collect() };
+        if len <= 25_000 {
+            push(bytes.iter().map(|b| vec![*b]).collect(), len, "bytewise", &mut runs);
+        }
+        // single cuts: every position for one short frame, otherwise around the boundaries
+        let cuts: Vec<usize> = if small { (1..len).collect() } else { near.clone() };
         for c in &cuts {
             push(vec![bytes[..*c].to_vec(), bytes[*c..].to_vec()], len, "cut", &mut runs);
         }
-        // random multi-way segmentations
-        for _ in 0..3 {
+        // random multi-way segmentations (small pieces; large pieces for large streams)
+        for round in 0..3 {
             let mut segs = vec![];
             let mut at = 0;
+            let maxl = if len > 1000 && round > 0 { 6000 } else { 7 };
             while at < len {
-                let l = 1 + rng.below(7) as usize;
+                let l = 1 + rng.below(maxl) as usize;
                 let e = (at + l).min(len);
                 segs.push(bytes[at..e].to_vec());
                 at = e;
             }
             push(segs, len, "random", &mut runs);
         }
-        // end of stream at every position (sampled when long)
-        let eofs: Vec<usize> = if len <= 40 { (0..len).collect() } else { (0..24).map(|_| rng.below(len as u64) as usize).collect() };
+        // end of stream: every position for one short frame, otherwise around the boundaries
+        let eofs: Vec<usize> = if small { (0..len).collect() } else { near.iter().copied().chain([0usize, len - 1]).collect() };
         for e in &eofs {
             push(vec![bytes[..*e].to_vec()], *e, "eof", &mut runs);
         }
@@ -410,7 +469,7 @@ fn main() {
     let lines: Vec<Value> = text.lines().filter(|l| !l.trim().is_empty()).map(|l| serde_json::from_str(l).expect("json")).collect();
     let prefix = PathBuf::from(&args[3]);
     let path = PathBuf::from(format!("{}.{}.ndjson", prefix.display(), si));
-    let pend = Pending(PathBuf::from(format!("{}.{}.pending", prefix.display(), si)));
+    let pend = Pending::new(PathBuf::from(format!("{}.{}.pending", prefix.display(), si)));
     let mut out = TraceOut::create(&path);
     out.emit(&json!({"ev": "header", "mode": args[1]}));
     let n = match args[1].as_str() {
@@ -422,6 +481,7 @@ fn main() {
         m => panic!("mode {m}"),
     };
     let l = out.finish();
+    pend.clear();
     let _ = fs::remove_file(&pend.0);
     println!("{}", json!({"file": path.display().to_string(), "runs": n, "lines": l}));
 }
